@@ -13,7 +13,7 @@ ASSUMPTIONS = ["the bound on buffered unparsed input is a property of bufio's fi
 RULE = ("conv probe, no scripted backend panics: (a) command lines of length limit-2..limit+3 for limits {40,64,2000} at first/"
         "middle/last position, each whole, split in two at every 8th offset, and byte-wise; the over-long line is a MAIL whose address "
         "contains 'long' so that any execution of it or of a prefix is visible; (b) endless LF-free input; (c) every string up to "
-        "length 4 (thorough 5) over {NUL, CR, LF, SP, 'A', ':', 0xFF} as a command line; (d) seeded random binary segments; (e) mixes of valid "
+        "length 4 (thorough 5) over {NUL, CR, LF, SP, 'A', ':', 0xFF} as a command line; (c') every string up to length 3 (thorough 4) over {double quote, backslash, '<', '>', '@', 'a', SP, ':', '=', '+', '.'} as the argument of MAIL FROM:, RCPT TO:, AUTH= , ORCPT= and AUTH; (d) seeded random binary segments; (e) mixes of valid "
         "and invalid commands around the error threshold; (f) random walks without panic letters. non-trivial = the conversation "
         "contains an invalid, over-long or binary line; distinct = distinct case line")
 THEOREMS = ["C19 (pending)"]
@@ -73,6 +73,24 @@ def groups(tier, rng):
         c = g.Conv(dict(maxline=64))
         c.add(b"EHLO x\r\n"); c.add(s + b"\r\n"); c.add(b"NOOP\r\n")
         short.append(c.case(seg="one") + "\tTAG=cmdonly")
+    # argument syntax: every short string over the characters the address/parameter parsers branch on
+    args = []
+    aalpha = [b'"', b"\\", b"<", b">", b"@", b"a", b" ", b":", b"=", b"+", b"."]
+    astr = list(all_strings(aalpha, 3 if tier == "quick" else 4, 1))
+    for a in astr:
+        for pre, cfgd in ((b"MAIL FROM:", {}), (b"MAIL FROM:<", {}), (b"RCPT TO:<", {}), (b"MAIL FROM:<s@x> AUTH=", {}),
+                          (b"RCPT TO:<r@x> ORCPT=", dict(dsn=1)), (b"AUTH ", dict(insecure=1, authsess=1, mechs=hx(b"PLAIN")))):
+            if tier == "quick" and len(a) == 3 and rng.random() < 0.5:
+                continue
+            if b"=" in pre and b" " in a:
+                # two faulty parameters: which one is reported depends on Go's map iteration order (not modelled)
+                continue
+            c = g.Conv(dict(dict(maxline=2000, dsn=1, utf8=1), **cfgd))
+            c.add(b"EHLO x\r\n")
+            if pre.startswith(b"RCPT"):
+                c.add(b"MAIL FROM:<s@x>\r\n")
+            c.add(pre + a + b"\r\n"); c.add(b"NOOP\r\n")
+            args.append(c.case(seg="one") + "\tTAG=cmdonly")
     for _ in range(2000 if tier == "quick" else 100000):
         c = g.Conv(rng.choice([dict(maxline=64), dict(maxline=2000), dict(maxline=2000, lmtp=1)]))
         if rng.random() < 0.5:
@@ -94,7 +112,7 @@ def groups(tier, rng):
         names = [n for n in g.random_walk(cfg, rng, rng.randrange(3, 25)) if "panic" not in n and "lmtpstatus" not in n]
         walks.append(g.build(cfg, names, rng).case(seg=rng.choice(["one", "line", "byte", "rand"]), rng=rng))
     mk = lambda name, cs: Group("conv/" + name, cs, project=project, theorems=THEOREMS)
-    return [mk("line-lengths", lines), mk("endless", endless), mk("short-strings", short), mk("random-binary", binary),
+    return [mk("line-lengths", lines), mk("endless", endless), mk("short-strings", short), mk("argument-syntax", args), mk("random-binary", binary),
             mk("error-threshold", thresh), mk("walks-no-panic", walks)]
 
 
